@@ -1318,6 +1318,7 @@ func engineGenProg(c config, o *out) {
 		return
 	}
 	gpEmitTranslation(o, true)
+	gp2Emit(o, true)
 	o.kase("GENPROG", []string{"types"}, gpCheckTypes())
 }
 
@@ -1648,11 +1649,12 @@ func gpPrintCoq() {
 // gpHook: written once per gen run: the @GENPROGDEF context lines; ok = every function / variable was translated (else no GENPROGRUN lines)
 type gpHook struct {
 	ok    bool
+	ok2   bool
 	views map[*genReq]*protogen.Plugin
 }
 
 func newGpHook(o *out) *gpHook {
-	return &gpHook{ok: gpEmitTranslation(o, false), views: map[*genReq]*protogen.Plugin{}}
+	return &gpHook{ok: gpEmitTranslation(o, false), ok2: gp2Emit(o, false), views: map[*genReq]*protogen.Plugin{}}
 }
 
 func (h *gpHook) view(r *genReq) *protogen.Plugin {
@@ -1686,6 +1688,9 @@ func (h *gpHook) mainLine(o *out, r *genReq, param string, res *runRes) {
 	obs := featObs(observedFeatures(res), r) + "|" + strings.Join(names, ",")
 	o.kase("GENPROGRUN", []string{"MAIN", gpParams(param).String(), hasMsgFlag(r), gpFilesSexp(pl, false, nil).String()}, obs)
 	o.count("genprog/main")
+	if res.resp != nil {
+		gp2RunLine(o, h.ok2, gpParams(param), gpFilesSexp(pl, false, nil), names, res.resp.Error != nil)
+	}
 }
 
 // what identLines found of one emitted file: the struct members of its messages, in declaration order
